@@ -1,8 +1,24 @@
 (* C17 — Which files belong in a module zip is a fixed function of the tree.
    Property theorems only; each is closed by [exact] of a lemma proved in Zip/Proofs*.v. *)
 From Verif.Base Require Import Bytes PathClean.
-From Verif.Zip Require Import Check Proofs.
+From Verif.Zip Require Import Check ProofsClass.
 
-Theorem C17_add_error_valid : forall st p om e, s_valid (add_error st p om e) = s_valid st.
-Proof. exact add_error_valid. Qed.
-Print Assumptions C17_add_error_valid.
+(* For a list of files with distinct paths, every path is in exactly one of Valid, Omitted
+   and Invalid of the report of checkFiles (whatever the go version regime ge124), and the
+   report lists nothing else. *)
+Theorem C17_classification_total_exclusive :
+  forall (ge124 : bool) (files : list file),
+    NoDup (map f_path files) ->
+    c_fuel (check_files_with ge124 files) = false ->
+    (forall p, In p (map f_path files) ->
+       count_occ str_eq_dec
+         (c_valid (check_files_with ge124 files)
+          ++ map fst (c_omitted (check_files_with ge124 files))
+          ++ map fst (c_invalid (check_files_with ge124 files))) p = 1%nat) /\
+    (forall p,
+       In p (c_valid (check_files_with ge124 files)
+             ++ map fst (c_omitted (check_files_with ge124 files))
+             ++ map fst (c_invalid (check_files_with ge124 files))) ->
+       In p (map f_path files)).
+Proof. exact classification_total_exclusive. Qed.
+Print Assumptions C17_classification_total_exclusive.
